@@ -327,6 +327,25 @@ theorem c16_silent_child_times_out {α : Type} (written : List (Nat × α)) (i :
     simpa using h l hl
   simp [this]
 
+/-- **Concurrent clients do not answer for one another.**  With several clients alive at once, what client `k`'s
+pending request returns was written by client `k`'s own child under that id, and it does not change when the OTHER
+connections carry different traffic (the same request id included). -/
+theorem c16_concurrent_no_fabricated_result {α : Type} (clients : List (List (Nat × α))) (k i : Nat) (p : α)
+    (h : pendingOf clients k i = .returned p) : (i, p) ∈ clients.getD k [] :=
+  c16_no_fabricated_result _ i p h
+
+theorem c16_concurrent_clients_independent {α : Type} (clients clients' : List (List (Nat × α))) (k i : Nat)
+    (h : clients.getD k [] = clients'.getD k []) : pendingOf clients k i = pendingOf clients' k i := by
+  unfold pendingOf
+  rw [h]
+
+/-- a dead child next to a talkative one, same id on both connections -/
+example : pendingOf [[], [(1, "b's answer")]] 0 1 = (.timedOut : ReqOutcome String)
+    ∧ pendingOf [[], [(1, "b's answer")]] 1 1 = .returned "b's answer" := by
+  constructor
+  · exact c16_silent_child_times_out _ _ (by simp)
+  · simp [pendingOf, pending]
+
 /-- **A command that cannot be started makes entering raise** (and there is then no exit to run). -/
 theorem c16_bad_command_raises (shielded : Bool) (os : OS) (p : ExitPath) (c : ChildSpec) :
     (session shielded os .failed p c).raisedOnEnter = true
